@@ -44,7 +44,7 @@ func (g *generator) dt() int {
 
 func (g *generator) answers() string {
 	bg := "-"
-	if g.rng.Chance(1, 3) {
+	if g.rng.Chance(1, 2) {
 		bg = strconv.Itoa(g.rng.Intn(3))
 	}
 	return fmt.Sprintf("sel=%d bg=%s retry=%s", g.rng.Intn(3), bg, b01(g.rng.Chance(1, 2)))
@@ -70,7 +70,7 @@ func (g *generator) setup() []string {
 			q.sizes = []int{1, 2, 8}
 		}
 		g.queues = append(g.queues, q)
-		lines = append(lines, fmt.Sprintf("0 regpq %s %d %s %d %d", q.comps, q.plat, intsStr(q.sizes), g.rng.Intn(3), prioPool[g.rng.Intn(len(prioPool))]))
+		lines = append(lines, fmt.Sprintf("0 regpq %s %d %s %d %d", q.comps, q.plat, intsStr(q.sizes), g.rng.Pick(2, 3, 2), prioPool[g.rng.Intn(len(prioPool))]))
 	}
 	// candidates for worker-created queues
 	for i := 0; i < 2; i++ {
@@ -133,7 +133,7 @@ func (g *generator) next(r *run) string {
 	sort.Strings(blockedSyncs)
 	sort.Strings(blockedTerms)
 
-	switch g.rng.Pick(26, 40, 5, 6, 3, 3, 2, 4, 3, 2, 1, 3) {
+	switch g.rng.Pick(26, 44, 5, 6, 3, 3, 2, 3, 3, 1, 1, 3) {
 	case 0: // Execute
 		g.nextC++
 		q := g.queues[g.rng.Intn(len(g.queues))]
@@ -151,6 +151,26 @@ func (g *generator) next(r *run) string {
 	case 1: // Synchronize
 		q, sc := g.pickQueue()
 		h, t := g.rng.Intn(3), g.rng.Intn(2)
+		// half of the time let a worker that is executing something report
+		var busy []string
+		for k, task := range workerTask {
+			if task != "-" {
+				busy = append(busy, k)
+			}
+		}
+		sort.Strings(busy)
+		if len(busy) > 0 && g.rng.Chance(1, 2) {
+			k := strings.Split(busy[g.rng.Intn(len(busy))], "/")
+			for _, cand := range g.queues {
+				if strconv.Itoa(w.pqID(ints(cand.comps), cand.plat)) == k[0] {
+					q = cand
+					sc, _ = strconv.Atoi(k[1])
+					ht := strings.Split(k[2], ".")
+					h, _ = strconv.Atoi(ht[0])
+					t, _ = strconv.Atoi(ht[1])
+				}
+			}
+		}
 		key := fmt.Sprintf("%d/%d/%d.%d", w.pqID(ints(q.comps), q.plat), sc, h, t)
 		report := "i"
 		if task, ok := workerTask[key]; ok && task != "-" {
@@ -291,6 +311,64 @@ func TestHarness(t *testing.T) {
 			Expected: ff.expected, Actual: ff.actual, Sig: hx.Sig(prop, ff.kind, ff.name)})
 	}
 
+	// search: after a model/implementation disagreement, look for a concrete history on
+	// which the implementation itself violates a property (monitors only, no model).
+	search := func(prefix []string, qs []queueSpec, seed uint64) ([]string, *failure) {
+		for try := 0; try < 40; try++ {
+			g := &generator{rng: hx.NewRand(seed*1000 + uint64(try)), queues: qs, nextC: 1000, nextK: 1000, nextTok: 1000}
+			lines := append([]string(nil), prefix...)
+			r := &run{drv: drv, noModel: true, prev: map[string]string{}, flags: map[string]bool{}, streams: map[int]*streamMon{}, doneTask: map[int]string{}}
+			synctest_run(t, r, func() {
+				for _, l := range lines {
+					r.apply(l)
+				}
+				for i := 0; i < 60 && r.fail == nil; i++ {
+					l := g.next(r)
+					lines = append(lines, l)
+					r.apply(l)
+				}
+				if r.fail == nil {
+					r.quiesce()
+				}
+			})
+			if r.fail != nil && r.fail.kind == "violation" {
+				return lines, r.fail
+			}
+		}
+		return nil, nil
+	}
+	reportWithSearch := func(lines []string, qs []queueSpec, f *failure, seed uint64) {
+		if f.kind == "mismatch" {
+			if vl, vf := search(lines, qs, seed); vf != nil {
+				res.Count("mismatch-turned-into-failing-input")
+				// shrink in monitor-only mode
+				fails := func(cand []string) bool {
+					r := &run{drv: drv, noModel: true, prev: map[string]string{}, flags: map[string]bool{}, streams: map[int]*streamMon{}, doneTask: map[int]string{}}
+					synctest_run(t, r, func() {
+						for _, l := range cand {
+							if r.fail == nil {
+								r.apply(l)
+							}
+						}
+						if r.fail == nil {
+							r.quiesce()
+						}
+					})
+					return r.fail != nil && r.fail.kind == "violation" && r.fail.prop == vf.prop
+				}
+				min := hx.Shrink(vl, fails)
+				prop := vf.prop
+				if prop == "" {
+					prop = o.Prop
+				}
+				res.Report(hx.Finding{Kind: "violation", Property: prop, What: vf.what + " (found by searching continuations of a history on which model and implementation disagree: " + f.what + ")",
+					Name: vf.name, History: min, Sig: hx.Sig(prop, "violation", vf.name)})
+				return
+			}
+		}
+		report(lines, f)
+	}
+
 	if o.Replay != "" {
 		f, err := hx.LoadReplay(o.Replay)
 		if err != nil {
@@ -343,7 +421,7 @@ func TestHarness(t *testing.T) {
 		}
 		res.History(lines, r.flags["handoff"] && r.flags["queue-pick"] && r.flags["worker-result"] && (r.flags["dedup"] || r.flags["retry"]))
 		if r.fail != nil {
-			report(lines, r.fail)
+			reportWithSearch(lines, g.queues, r.fail, o.Seed)
 		}
 	}
 	res.ModelLines = drv.Lines
